@@ -954,6 +954,29 @@ def rule_N6(ctx):
         ctx.analysed(f)
 
 
+def rule_N7(ctx):
+    """The consensus command completes on every trace only if the retained clades are pairwise nested or disjoint:
+    consensus() raises "Inconsistent set of clades" otherwise.  Two conflicting clades cannot both have support
+    strictly above one half (supports of conflicting clades sum to at most 1), but they can both have support equal
+    to it (a 50/50 split of an even-length trace, exactly representable in counts mode): the comparison with the
+    threshold has to be strict."""
+    from ..termflow import equivalent
+
+    prog = ctx.prog
+    ctx.rule("N7", "consensus keeps a clade only when its support is strictly above the threshold (a strict majority is conflict-free; `>=` admits two conflicting clades at exactly one half and consensus() raises)", 1)
+    f = prog.fn("consensus.key_above_threshold")
+    ex = extract(prog, f)
+    strict = spec(prog, "def s(counter, threshold):\n    return set([key for key, value in counter.items() if value > threshold])\n", f)
+    eq, _, _ = equivalent(ex.result, strict.result)
+    if not eq:
+        # a different container type for the same keys is not this rule's business
+        for wrap in ("frozenset", "list", "tuple"):
+            alt = spec(prog, "def s(counter, threshold):\n    return %s([key for key, value in counter.items() if value > threshold])\n" % wrap, f)
+            eq = eq or equivalent(ex.result, alt.result)[0]
+    ctx.check(eq, "N7", "key_above_threshold keeps exactly the keys whose value is strictly greater than the threshold", f.where(), "the retained set is %s: at the default threshold two conflicting clades with support exactly 0.5 are both kept and the command fails with 'Inconsistent set of clades'" % show(ex.result)[:300], construct=f.qualname, stmt="value > threshold")
+    ctx.analysed(f)
+
+
 def run(ctx):
     ctx.assume("pandas DataFrame / groupby / explode / concat and networkx DiGraph behave as documented")
     ctx.assume("rustworkx dfs_search calls tree_edge before the child is discovered and finish_vertex after all descendants are finished")
@@ -963,6 +986,7 @@ def run(ctx):
     ctx.soft(rule_N3_N4)
     ctx.soft(rule_N5)
     ctx.soft(rule_N6)
+    ctx.soft(rule_N7)
     # the ccf / clonal_prev columns are the MAP assignment's: its traceback and output formulas (C10.X4, X5)
     from . import C10
 
@@ -977,6 +1001,12 @@ def run(ctx):
     from . import C11
 
     imported(ctx, C11.rule_A5)
+    # "the commands complete": the consensus path rebuilds a Tree from the consensus graph through the editor's
+    # build-time entry points (from_dict_nx / get_tree_from_consensus_graph / clean_tree / relabel) - against the
+    # reference semantics, as in C16
+    from ._treespec import rule_TS
+
+    imported(ctx, rule_TS, ["process_trace.consensus", "process_trace.process_trace"], "TS", None, 3)
 
 
 # ----------------------------------------------------------------------------- self-test catalogue
@@ -990,6 +1020,8 @@ _ADD = "        nx_graph.add_nodes_from(node.node_id for node in graph.nodes())\
 _FLAT_LOOP = '        for idx in tree_labels:\n            df_records_list.append(\n                {\n                    "mutation_id": data[idx].name,\n                    "clone_id": tree_labels[idx],\n                }\n            )\n\n            clone_muts.add(data[idx].name)\n'
 _OUT = "    _create_results_output_files(out_table_file, out_tree_file, table, tree)\n\n\ndef create_topology_dict_from_trace"
 SELFTEST = [
+    {"name": "N7-threshold-not-strict", "kind": "break", "rule": "N7", "file": "phyclone/process_trace/consensus.py", "old": "if value > threshold])", "new": "if value >= threshold])"},
+    {"name": "benign-threshold-operands-swapped", "kind": "benign", "file": "phyclone/process_trace/consensus.py", "old": "return set([key for key, value in counter.items() if value > threshold])", "new": "return {key for key, value in counter.items() if threshold < value}"},
     {"name": "N3-groups-without-ccf-dropped", "kind": "break", "rule": "N3", "file": _P, "old": "            group[\"clonal_prev\"] = -1\n\n        df_list.append(group)\n", "new": "            group[\"clonal_prev\"] = -1\n            continue\n\n        df_list.append(group)\n"},
     {"name": "benign-N3-append-in-both-arms", "kind": "benign", "file": _P, "old": "            group[\"clonal_prev\"] = -1\n\n        df_list.append(group)\n", "new": "            group[\"clonal_prev\"] = -1\n            df_list.append(group)\n            continue\n\n        df_list.append(group)\n"},
     # ---- N1
